@@ -79,6 +79,7 @@ type c15Scenario struct {
 	Rev         *RevScenario // the TSA chain world (purpose timestamping) with its sources
 	WithExpiry  bool
 	Agent       bool
+	GenSkew     time.Duration // the authority's clock is off by this much (genTime = now + GenSkew)
 }
 
 func profC15Rev() *RevProfile {
@@ -129,6 +130,7 @@ func genC15(t *Tape) *c15Scenario {
 	}
 	sc.WithExpiry = t.Bool(30)
 	sc.Agent = t.Bool(30)
+	sc.GenSkew = []time.Duration{0, -2 * time.Hour, -30 * 24 * time.Hour, 2 * time.Hour, 48 * time.Hour}[t.Weighted(60, 15, 10, 8, 7)]
 	// the TSA chain and its revocation sources
 	rs := &RevScenario{Prof: profC15Rev()}
 	rs.Config = t.Weighted(rs.Prof.ConfigW...)
@@ -286,7 +288,7 @@ func (sc *c15Scenario) exec(obs *c15Obs) {
 	}
 	otherKey := ka.get("ec256")
 	x := nt.Plan(0, &Exchange{URL: "http://tsa.sim/ts", Kind: "tsa", Latency: sc.Latency, Fault: sc.Fault, ReadCap: 1 << 20,
-		Serve: tsaServe(sc.Behaviour, tsaLeaf, embed, otherKey)})
+		Serve: tsaServeSkew(sc.Behaviour, tsaLeaf, embed, otherKey, sc.GenSkew)})
 	obs.X = x
 	tsaClient := &http.Client{Transport: nt}
 	if sc.Timeout > 0 {
@@ -598,7 +600,7 @@ func viewsDesc(vs []*CertView) string {
 func describeC15(sc *c15Scenario) any {
 	w := sc.Rev.Worlds[0]
 	return map[string]any{"format": []string{"jws", "cose"}[sc.Format], "key": sc.KeyKind, "remote_signer": sc.Remote, "scheme": []string{"notary.x509", "notary.x509.signingAuthority"}[sc.Scheme],
-		"timestamper": !sc.NoTimestamp, "tsa_behaviour": tsaBehaviourNames[sc.Behaviour], "tsa_http_fault": sc.Fault.String(), "tsa_latency_ms": sc.Latency.Milliseconds(),
+		"timestamper": !sc.NoTimestamp, "tsa_behaviour": tsaBehaviourNames[sc.Behaviour], "tsa_http_fault": sc.Fault.String(), "tsa_latency_ms": sc.Latency.Milliseconds(), "tsa_clock_skew_s": sc.GenSkew.Seconds(),
 		"tsa_timeout_ms": sc.Timeout.Milliseconds(), "cancel": sc.Cancel, "cancel_ms": sc.CancelMs, "tsa_chain_len": len(w.Certs), "tsa_chain_defect": tsaDefectNames[w.TSADefect],
 		"revocation_mode": []string{"none", "stub_vector", "real_validator"}[sc.RevMode], "stub_vector": sc.StubVec, "stub_error": sc.StubErr, "tsa_chain_sources": describeRev(sc.Rev)}
 }
@@ -649,7 +651,12 @@ func init() { registerProp(&PropDef{ID: "C15", Run: runC15}) }
 // tsaServe returns the content generator of the simulated authority for one
 // behaviour of the C15 alphabet.
 func tsaServe(behaviour int, tsaLeaf *Cert, embed []*x509.Certificate, otherKey *Key) func(x *Exchange, req *http.Request, body []byte, now time.Time) ([]byte, string) {
+	return tsaServeSkew(behaviour, tsaLeaf, embed, otherKey, 0)
+}
+
+func tsaServeSkew(behaviour int, tsaLeaf *Cert, embed []*x509.Certificate, otherKey *Key, skew time.Duration) func(x *Exchange, req *http.Request, body []byte, now time.Time) ([]byte, string) {
 	return func(x *Exchange, req *http.Request, body []byte, now time.Time) ([]byte, string) {
+		now = now.Add(skew)
 		sv := &TSAServed{Behaviour: behaviour}
 		x.Rec.Served = sv
 		var tr tsRequest
